@@ -359,13 +359,17 @@ Definition enc_check_in_pre (c : check_in_pre) : val :=
      LocalHashFileDB.check trusts a protected (0o444) file; otherwise the file is re-hashed;
        equal      -> fine                                                          [VerifyOk]
        absent     -> FileNotFoundError, swallowed by add()                         [VerifyOk]
-       different  -> the file is REMOVED and the id is reported through on_error:
-                     the writer's transfer lists it in TransferResult.failed       [VerifyDrop]
+       different  -> the id is reported through on_error (TransferResult.failed)   [VerifyBad]
+                     and THEN, in a separate system call, whatever is under the
+                     name at that moment is removed (FileNotFoundError suppressed)  [VerifyDrop]
+   The read and the remove are two steps: other writers can run in between (HashFileDB.check is
+   hash-then-remove, not atomic).
    (the check BEFORE the copy drops a mismatching file and the copy follows: that is [Remove]).
    A [vworld] carries the list of (writer, id) reported failed. *)
 Inductive vstep :=
 | Base (s : step)
 | VerifyOk (o : oid)
+| VerifyBad (o : oid)
 | VerifyDrop (o : oid).
 
 Definition vworld := (world * list (nat * oid))%type.
@@ -384,17 +388,19 @@ Definition vexec (loc : bool) (its : items) (i : nat) (s : vstep) (v : vworld) :
                   | Some f => if verify_accepts loc b f then Some v else None
                   end
       end
-  | VerifyDrop o =>
+  | VerifyBad o =>
       match oget o its with
       | None => None
       | Some b => match oget o (w_objs (fst v)) with
                   | None => None
-                  | Some f =>
-                      if verify_accepts loc b f then None
-                      else let w := fst v in
-                           Some (mkworld (odel o (w_objs w)) (w_tmps w) (w_rows w) (w_ever w) (w_next w) (w_dirs w),
-                                 (i, o) :: snd v)
+                  | Some f => if verify_accepts loc b f then None else Some (fst v, (i, o) :: snd v)
                   end
+      end
+  | VerifyDrop o =>
+      match oget o its with
+      | None => None
+      | Some _ => let w := fst v in
+                  Some (mkworld (odel o (w_objs w)) (w_tmps w) (w_rows w) (w_ever w) (w_next w) (w_dirs w), snd v)
       end
   end.
 
